@@ -8,6 +8,10 @@ garbage / duplicated / stale datagrams arrive in between and the server is shut 
 at a seeded tick.  The token generator's randomness is an input: a shim for
 mpgameserver.context.os replays a seeded byte sequence that repeats tokens in use.
 
+A second mode ("realnet") runs the real ThreadedServer (Twisted reactor thread + server
+thread) with real UdpClient sockets on loopback for a few real seconds and applies the
+same lifecycle automaton (safety only, no timing verdicts).
+
 Offline checker over the handler's event log: per client object the events match
 connect . message* . disconnect, each of connect/disconnect exactly once; connect only
 with proof of key (as C02c); every message was minted by that very client; nothing
@@ -29,8 +33,10 @@ SHARD_TIMEOUT = {"quick": 600, "thorough": 3000}
 
 def plan(tier, seed):
     if tier == "quick":
-        return [{"tier": tier, "seed": seed, "shard": i, "n": 3, "subprocess": True} for i in range(12)]
-    return [{"tier": tier, "seed": seed, "shard": i, "n": 200, "subprocess": True} for i in range(32)]
+        return [{"tier": tier, "seed": seed, "shard": i, "n": 3, "subprocess": True} for i in range(12)] + [
+            {"kind": "realnet", "tier": tier, "seed": seed, "shard": 100, "clients": 6, "seconds": 3.0, "subprocess": True}]
+    return [{"tier": tier, "seed": seed, "shard": i, "n": 200, "subprocess": True} for i in range(32)] + [
+        {"kind": "realnet", "tier": tier, "seed": seed, "shard": 100 + i, "clients": [4, 8, 16, 32][i % 4], "seconds": 20.0, "subprocess": True} for i in range(8)]
 
 
 class OsShim(object):
@@ -60,6 +66,180 @@ class OsShim(object):
 
     def __getattr__(self, name):
         return getattr(self._os, name)
+
+
+def lifecycle_check(log, message_ok, viol, c):
+    """the per-client automaton connect . message* . disconnect over a handler event log of
+    (event, thread id, t, client object id, addr, token, extra) tuples.  Returns the final state per client."""
+    threads = {e[1] for e in log}
+    if len(threads) != 1:
+        viol("events-on-several-threads", "handler events ran on %d threads" % len(threads))
+    if not log or log[0][0] != "starting":
+        viol("no-starting-event", "the first handler event is %r" % (log[0][0] if log else None))
+    if log and log[-1][0] != "shutdown":
+        viol("no-shutdown-event", "the last handler event is %r" % (log[-1][0],))
+    state = {}
+    live_tokens = {}
+    for i, (event, tid, t, cid, addr, token, extra) in enumerate(log):
+        if cid is None:
+            continue
+        st = state.get(cid)
+        if event == "connect":
+            c.inc("events_connect")
+            if st is not None:
+                viol("connect-twice", "second connect event for the client object at %s (state %s)" % (addr, st))
+            if token in live_tokens.values():
+                viol("duplicate-token", "two simultaneously connected clients carry token %r" % (token,))
+            live_tokens[cid] = token
+            state[cid] = "connected"
+        elif event == "message":
+            c.inc("events_message")
+            if st != "connected":
+                viol("message-outside-lifecycle" if st is None else "message-after-disconnect",
+                     "message event for the client at %s while its state is %s" % (addr, st))
+            if not message_ok(addr, extra):
+                viol("foreign-message", "client object at %s was handed a message it did not send" % (addr,))
+            else:
+                c.inc("messages_attributed_to_their_client")
+        elif event == "disconnect":
+            c.inc("events_disconnect")
+            if st != "connected":
+                viol("disconnect-without-connect" if st is None else "disconnect-twice",
+                     "disconnect event for the client at %s while its state is %s" % (addr, st))
+            state[cid] = "disconnected"
+            live_tokens.pop(cid, None)
+    for cid, st in state.items():
+        if st == "connected":
+            viol("no-disconnect-after-shutdown", "a client connected but never got its disconnect (shutdown included)")
+        else:
+            c.inc("lifecycles_complete")
+    return state
+
+
+def run_realnet(cfg, out):
+    """real ThreadedServer (Twisted reactor thread + server thread) and real UdpClient sockets on loopback for a
+    few real seconds: safety invariants of the lifecycle only, no timing verdicts"""
+    import socket
+    import threading
+    import time
+    import logging
+    from mpgameserver import ServerContext, EventHandler, UdpClient
+    from mpgameserver.twisted import ThreadedServer
+    logging.getLogger("mpgameserver").setLevel(100)
+    r = rng("C10", cfg["seed"], "realnet", cfg["shard"])
+    c = out["counters"]
+
+    def viol(mech, msg):
+        c.inc("viol:" + mech)
+        if sum(1 for v in out["violations"] if v["mechanism"] == mech) < 5:
+            out["violations"].append({"mechanism": mech, "msg": "[realnet] " + msg, "case_key": ["realnet", cfg["shard"]], "case": {}})
+    log = []
+    keep = {}
+    errors = []
+    old_hook = threading.excepthook
+    threading.excepthook = lambda a: errors.append(repr(a.exc_value))
+
+    class H(EventHandler):
+        def _rec(self, event, client=None, extra=None):
+            if client is not None:
+                keep[id(client)] = client
+            log.append((event, threading.get_ident(), time.time(), id(client) if client is not None else None,
+                        getattr(client, "addr", None), getattr(client, "token", None), extra))
+
+        def starting(self):
+            self._rec("starting")
+
+        def shutdown(self):
+            self._rec("shutdown")
+
+        def connect(self, client):
+            self._rec("connect", client)
+            if r.random() < 0.1:
+                raise RuntimeError("seeded handler failure in connect")
+
+        def disconnect(self, client):
+            self._rec("disconnect", client)
+
+        def handle_message(self, client, seqnum, msg=b""):
+            self._rec("message", client, (int(seqnum), bytes(msg)))
+            client.send(msg)
+            if r.random() < 0.02:
+                client.disconnect()
+            if r.random() < 0.05:
+                raise RuntimeError("seeded handler failure in message")
+
+    ctxt = ServerContext(H())
+    ctxt.setConnectionTimeout(0.6)
+    s = socket.socket(socket.AF_INET, socket.SOCK_DGRAM)
+    s.bind(("127.0.0.1", 0))
+    port = s.getsockname()[1]
+    s.close()
+    server = ThreadedServer(ctxt, ("127.0.0.1", port))
+    server.start()
+    time.sleep(0.4)
+    pub = ctxt.server_root_key.getPublicKey()
+    n = cfg.get("clients", 6)
+    clients = [UdpClient(pub) for _ in range(n)]
+    local_port = {}              # client index -> set of local ports it used
+    sent_by_port = {}            # local port -> set of payloads
+    counters = [0] * n
+    silent = set()
+    t_end = time.time() + cfg.get("seconds", 3.0)
+    for i, cl in enumerate(clients):
+        cl.connect(("127.0.0.1", port))
+    while time.time() < t_end:
+        for i, cl in enumerate(clients):
+            if i in silent:
+                continue
+            try:
+                cl.update()
+            except Exception as e:
+                c.inc("realnet_client_update_raised")
+            if cl.sock is not None:
+                try:
+                    lp = cl.sock.getsockname()[1]
+                except Exception:
+                    lp = None
+            else:
+                lp = None
+            x = r.random()
+            if x < 0.3:
+                if not (cl.connected() and lp):
+                    cl.getMessages()
+                    continue
+                counters[i] += 1
+                p = L.make_payload(i + 1, counters[i], r.choice([11, 60, 400, 2000]))
+                sent_by_port.setdefault(lp, set()).add(p)
+                cl.send(p, retry=r.choice([0, 1, -1]))
+                c.inc("realnet_sends")
+            elif x < 0.302 and cl.conn is not None:
+                cl.disconnect()
+                c.inc("realnet_client_disconnects")
+            elif x < 0.304:
+                # give up the socket and reconnect from a new port
+                cl.forceDisconnect()
+                cl.connect(("127.0.0.1", port))
+                c.inc("realnet_reconnects")
+            elif x < 0.3045:
+                silent.add(i)
+                c.inc("realnet_go_silent")
+            cl.getMessages()
+        time.sleep(1 / 200)
+    time.sleep(0.2)
+    server.stop()
+    threading.excepthook = old_hook
+    if errors:
+        viol("server-loop-died", "a thread died: %s" % errors[:2])
+
+    def message_ok(addr, extra):
+        return extra[1] in sent_by_port.get(addr[1], ())
+    lifecycle_check(log, message_ok, viol, c)
+    c.inc("realnet_runs")
+    c.inc("realnet_events", len(log))
+    out["distinct"].add(h64("realnet", cfg["shard"], len(log)))
+    out["samples"].append({"scenario": "realnet", "clients": n, "seconds": cfg.get("seconds", 3.0), "events": len(log),
+                           "first_events": [(e[0], e[4]) for e in log if e[0] != "update"][:12]})
+    return len(log)
 
 
 class Scenario(object):
@@ -307,6 +487,9 @@ class Scenario(object):
 def run_shard(cfg):
     out = {"violations": [], "counters": Counter(), "samples": [], "distinct": set()}
     n = 0
+    if cfg.get("kind") == "realnet":
+        run_realnet(cfg, out)
+        cfg = dict(cfg, n=0)
     for case in range(cfg["n"]):
         key = [cfg["seed"], cfg["shard"], case]
         if cfg.get("only_case") and cfg["only_case"] != key:
@@ -328,7 +511,8 @@ def finish(tier, seed, results):
                          "act_go_silent", "act_client_disconnect", "server_disconnect_in_connect", "server_disconnect_in_message",
                          "server_disconnect_in_update", "token_draws_repeating_a_live_token", "handler_raised_in_connect",
                          "handler_raised_in_message", "handler_raised_in_update", "handler_raised_in_disconnect", "connected_at_shutdown",
-                         "flow_after_exception_checked", "messages_attributed_to_their_client", "act_hostile_datagram"], inconclusive)
+                         "flow_after_exception_checked", "messages_attributed_to_their_client", "act_hostile_datagram", "realnet_runs",
+                         "realnet_sends"], inconclusive)
     cov = {
         "evaluations": m["evaluations"],
         "distinct_nontrivial": m["distinct_nontrivial"],
